@@ -386,7 +386,12 @@ def r2(prog, rep):
     if handlers:
         h = handlers[0]
         ifs = [x for x in h.body if isinstance(x, ast.If)]
-        ok = bool(ifs) and fp.module.code(ifs[0].test) == "recover" and _raising(ifs[0].orelse)
+        if ifs:
+            i0 = ifs[0]
+            t = fp.module.code(i0.test)
+            after = h.body[h.body.index(i0) + 1:]
+            ok = (t == "recover" and (_raising(i0.orelse) or (i0.body and isinstance(i0.body[-1], ast.Return) and not i0.orelse and _raising(after)))) \
+                or (t in ("notrecover", "not(recover)") and _raising(i0.body))
     rep.ob("R2", "perpendicular follower re-raises the iteration-cap exception unless `recover`", ok, fp.site(), "", key="guard/followPerpendicular/maxits")
     inner = [x for x in ast.walk(fp.node) if isinstance(x, ast.FunctionDef) and x.name == "f"]
     ok = bool(inner) and any(isinstance(x, ast.If) and "call_counter>=maxits" in fp.module.code(x.test) and _raising(x.body) for x in ast.walk(inner[0]))
